@@ -46,7 +46,7 @@ func constInt64(c *types.Const) (int64, bool) {
 // casesOn collects the constants a function compares `expr`-suffix values against with ==.
 func casesOn(w *World, f *ssa.Function, suffix string) map[int64]bool {
 	out := map[int64]bool{}
-	for _, ea := range condEdges(f) {
+	for _, ea := range condEdgesDeep(f) {
 		if ea.A.Kind != "cmp" || ea.A.Op.String() != "==" {
 			continue
 		}
@@ -266,13 +266,11 @@ func init() {
 			}
 			// chunk fields handed to the app come from one chunk record
 			got := map[string]string{}
-			for _, b := range f.Blocks {
-				for _, in := range b.Instrs {
-					if st, ok := in.(*ssa.Store); ok {
-						if fa, ok := st.Addr.(*ssa.FieldAddr); ok {
-							if n := derefNamed(fa.X.Type()); n != nil && n.Obj().Name() == "RequestApplySnapshotChunk" {
-								got[fieldName(fa.X.Type(), fa.Field)] = w.expr(st.Val)
-							}
+			for _, di := range w.deepInstrs(f, 2) { // also in a per-chunk helper split off the loop
+				if st, ok := di.in.(*ssa.Store); ok {
+					if fa, ok := st.Addr.(*ssa.FieldAddr); ok {
+						if n := derefNamed(fa.X.Type()); n != nil && n.Obj().Name() == "RequestApplySnapshotChunk" {
+							got[fieldName(fa.X.Type(), fa.Field)] = w.exprWith(st.Val, di.sub)
 						}
 					}
 				}
